@@ -363,6 +363,45 @@ func TestGrokScopes(t *testing.T) {
 	})
 }
 
+// TestGrokSizes: many captures in one expression (past 9, 32, 64), alias chains 2..40 deep, subjects of 70000 bytes,
+// capture names that collide with existing keys of every kind.
+func TestGrokSizes(t *testing.T) {
+	n := 0
+	run := func(key string, fields map[string]any, tags map[string]string, prog ...*gen.Node) {
+		c := sem.NewCase(gen.FixAll(prog))
+		c.Fields, c.Tags = fields, tags
+		judge(t, "groksize", c, key, true, "grok-sizes")
+		n++
+	}
+	for _, k := range []int{1, 9, 10, 11, 31, 32, 33, 64, 65, 100} {
+		var pat, subj []string
+		for i := 0; i < k; i++ {
+			ty := []string{":int", ":float", ":str", "", ":bool"}[i%5]
+			base := []string{"INT", "NUMBER", "WORD", "NOTSPACE", "WORD"}[i%5]
+			pat = append(pat, fmt.Sprintf("%%{%s:c%d%s}", base, i, ty))
+			subj = append(subj, []string{fmt.Sprint(i), fmt.Sprintf("%d.5", i), "w", "x-y", "true"}[i%5])
+		}
+		run(fmt.Sprintf("captures/%d", k), map[string]any{"message": strings.Join(subj, " "), "c0": "was here", "c2": int64(7)}, map[string]string{"c1": "tag", "c3": "tag3"},
+			gen.NSet("ok", gen.NCall("grok", id("_"), str(strings.Join(pat, " ")))), gen.NCall("probe", str("ok"), id("ok"), id("c0"), id(fmt.Sprintf("c%d", k-1))))
+	}
+	for _, d := range []int{2, 9, 10, 16, 17, 33, 40} {
+		prog := []*gen.Node{gen.NCall("add_pattern", str("p0"), str("\\d+"))}
+		for i := 1; i <= d; i++ {
+			prog = append(prog, gen.NCall("add_pattern", str(fmt.Sprintf("p%d", i)), str(fmt.Sprintf("x?%%{p%d}", i-1))))
+		}
+		prog = append(prog, gen.NSet("ok", gen.NCall("grok", id("_"), str(fmt.Sprintf("%%{WORD:w} %%{p%d:val:int}", d)))), gen.NCall("probe", str("ok"), id("ok"), id("val"), id("w")))
+		run(fmt.Sprintf("alias-depth/%d", d), map[string]any{"message": "abc 12345"}, map[string]string{}, prog...)
+	}
+	for _, ln := range []int{255, 4096, 65536, 70000} {
+		long := strings.Repeat("ab ", ln/3)
+		run(fmt.Sprintf("long-subject/%d", ln), map[string]any{"message": "head 42 " + long}, map[string]string{},
+			gen.NSet("ok", gen.NCall("grok", id("_"), str("%{WORD:h} %{INT:n:int} %{GREEDYDATA:rest}"))), gen.NCall("probe", str("ok"), id("ok"), id("h"), id("n"), gen.NCall("len", id("rest"))))
+		run(fmt.Sprintf("long-subject-nomatch/%d", ln), map[string]any{"message": long}, map[string]string{},
+			gen.NSet("ok", gen.NCall("grok", id("_"), str("^%{INT:n:int}$"))), gen.NCall("probe", str("ok"), id("ok"), id("n")))
+	}
+	evid.Exhaustive("captures per expression 1..100; alias chains 2..40; subjects to 70000 bytes", n)
+}
+
 // ------------------------------------------------------------------ datetime
 
 func TestDatetime(t *testing.T) {
